@@ -258,6 +258,7 @@ let exec (a : string array) (_input : int array ref) (bytes : string -> int arra
       let marks = Buffer.create 64 in
       let finishing = ref false in
       let abort = ref 0 in
+      let prev_unused = ref true in
       (* the unconsumed input as a shared list: a chunk that covers all of it costs nothing *)
       let suffix = ref (nlist_of_array input) in
       let rec drop k l = if k = 0 then l else (match l with [] -> [] | _ :: t -> drop (k - 1) t) in
@@ -295,8 +296,9 @@ let exec (a : string array) (_input : int array ref) (bytes : string -> int arra
                last := st;
                th := fnv_step (fnv_step (fnv_step !th (st + 20000)) ic) oc;
                if !calls <= 40 then Buffer.add_string tr (Printf.sprintf "%d/%d/%d/%d;" fl st ic oc);
-               if fl <> 0 && fl <> 4 && ic = clen && oc < nout && Buffer.length marks < 400 then
+               if fl >= 1 && fl <= 3 && !prev_unused && ic = clen && oc < nout && Buffer.length marks < 400 then
                  Buffer.add_string marks (Printf.sprintf "%d:%d:%d;" fl !in_off (Buffer.length out));
+               prev_unused := oc < nout;
                if st = 1 || (st < 0 && not (stream && st = -5)) then begin why := "end"; raise Exit end;
                if ic = 0 && oc = 0 then incr stall else stall := 0;
                if !stall > n + 2 then begin why := "stall"; raise Exit end)
@@ -307,7 +309,7 @@ let exec (a : string array) (_input : int array ref) (bytes : string -> int arra
       else begin
         c := Some !cc;
         let o = Array.init (Buffer.length out) (fun i -> Char.code (Buffer.nth out i)) in
-        Some (Printf.sprintf "st=%d in=%d out=%d calls=%d why=%s th=%016Lx ad=%d ub=%d marks=%s tr=%s full=%s"
+        Some (Printf.sprintf "st=%d in=%d out=%d calls=%d why=%s viol=0 th=%016Lx ad=%d ub=%d marks=%s tr=%s full=%s"
                 !last !in_off (Array.length o) !calls !why !th (int_of_n !cc.c_adler)
                 (int_of_n !cc.c_sbits)
                 (if Buffer.length marks = 0 then "-" else Buffer.contents marks)
